@@ -998,6 +998,14 @@ class FrameVal:
             self._row_all_null = z3.Function(cur().fresh_name("row_all_null"), z3.IntSort(), z3.BoolSort())
         return self._row_all_null(i)
 
+    def row_any_null(self, i):
+        """z3: some column of row i is null (uninterpreted per frame; implied by row_all_null for a frame with a column)"""
+        if getattr(self, "_row_any_null", None) is None:
+            self._row_any_null = z3.Function(cur().fresh_name("row_any_null"), z3.IntSort(), z3.BoolSort())
+            j = _i("j")
+            cur().assume(SBool(z3.ForAll([j], z3.Implies(self.row_all_null(j), self._row_any_null(j)))))
+        return self._row_any_null(i)
+
     def isna(self):
         return _FrameIsNa(self)
 
@@ -1089,6 +1097,12 @@ class _FrameIsNa:
             raise Unsupported("DataFrame.isna().all(axis=0)")
         f = self.frame
         return SeriesVal(f.space, lambda i: SBool(f.row_all_null(i)), lambda i: z3.BoolVal(False), f._sel, None, "bool", bool)
+
+    def any(self, axis=0, **kw):
+        if axis not in (1, "columns"):
+            raise Unsupported("DataFrame.isna().any(axis=0)")
+        f = self.frame
+        return SeriesVal(f.space, lambda i: SBool(f.row_any_null(i)), lambda i: z3.BoolVal(False), f._sel, None, "bool", bool)
 
 
 class ColumnsVal:
